@@ -263,8 +263,9 @@ def run_job(job):
         cfgkey = {"git": "gitignore", "hg": "hgignore", "docker": "dockerignore"}[tool]
         home_on = runner.make_home(sc, config="%s = true\n" % cfgkey, name="home-on")
         subdirs = [d for d in dirs if d and d not in ignored and not any(p in ignored for p in prefixes(d))]
+        ignored_dirs = [d for d in dirs if d and (d in ignored or any(p in ignored for p in prefixes(d)))]
         for qi in range(job["queries"]):
-            spelling = rng.choice(["dot", "rel-outside", "abs", "subdir", "subdir-abs", "rel-inside"])
+            spelling = rng.choice(["dot", "rel-outside", "abs", "subdir", "subdir-abs", "rel-inside", "ignored-subdir"])
             sub = ""
             if spelling == "dot":
                 cwd, frm = repo, "."
@@ -272,6 +273,14 @@ def run_job(job):
                 cwd, frm = w, "repo"
             elif spelling == "abs":
                 cwd, frm = w, repo
+            elif spelling == "ignored-subdir":
+                # the search starts inside a directory that the ignore file excludes: everything below it is ignored
+                if not ignored_dirs:
+                    continue
+                sub = rng.choice(ignored_dirs)
+                if not os.listdir(os.path.join(repo, sub)):
+                    continue
+                cwd, frm = rng.choice([(repo, sub), (w, os.path.join(repo, sub)), (os.path.join(repo, sub), ".")])
             elif spelling == "rel-inside":
                 if not subdirs:
                     continue
